@@ -7,7 +7,7 @@ from .. import cellsdrv as CD, geoworlds as GW, worlds as W
 
 ID = "C02"
 TITLE = "One linear order is shared by polygons, centres, flattened data and selectors"
-MC = {"quick": [("MC_Cells", "MC_C02.cfg", 8)], "thorough": [("MC_Cells", "MC_C02.cfg", 16)]}
+MC = {"quick": [("MC_Cells", "MC_C02.cfg", 8)], "thorough": [("MC_Cells", "MC_C02_thorough.cfg", 16)]}
 TRACE = ("Trace_Cells", "Trace_Cells.cfg")
 REQUIRED = ["held-memory", "held-file", "held-dask", "held-emsopen", "Polygons", "Centres", "Ravel", "SelectIndex", "Query", "holes", "hit", "tie",
             "cf1d", "cf2d", "shoc_simple", "shoc_standard", "arakawa", "ugrid",
